@@ -160,7 +160,29 @@ class PathConditions:
     def facts_at(self, node: int | ast.AST) -> list[Fact]:
         if not isinstance(node, int):
             node = self.cfg.node_for(node)
-        return [self._facts[i] for i in sorted(self._in.get(node, ()))]
+        facts = [self._facts[i] for i in sorted(self._in.get(node, ()))]
+        # unit resolution: not (a and b) with a known true gives not b; (a or b) with a known false gives b
+        known = {(ast.dump(f.expr), f.pol) for f in facts}
+        changed = True
+        while changed:
+            changed = False
+            for f in list(facts):
+                e = f.expr
+                if isinstance(e, ast.BoolOp) and ((isinstance(e.op, ast.And) and not f.pol) or (isinstance(e.op, ast.Or) and f.pol)):
+                    settled = isinstance(e.op, ast.And)     # conjuncts known true / disjuncts known false are settled
+                    rest = []
+                    for v in e.values:
+                        atoms = split(v, settled)
+                        if all((ast.dump(a), p) in known for a, p in atoms):
+                            continue
+                        rest.append(v)
+                    if len(rest) == 1:
+                        for a, p in split(rest[0], not settled):
+                            if (ast.dump(a), p) not in known:
+                                known.add((ast.dump(a), p))
+                                facts.append(Fact(a, p, f.test_node))
+                                changed = True
+        return facts
 
     def compare_facts(self, node: int | ast.AST, *, stop: set[str] | None = None, env: PolyEnv | None = None) -> list[tuple[str, Poly, Fact]]:
         """Normal-form comparison facts holding at node (operands expanded at the place of their test)."""
